@@ -142,12 +142,12 @@ func judgeImage(r *run.Runner, sn *core.Snapshot, jm judgeMode) (viol []run.Viol
 // faults of p, when it has any: replay mode) and judges them.
 func crashExec(seed uint64, p *prog.Program, pol func(r *core.Rng) *core.SnapPolicy, jm judgeMode, opt run.Options) *RunResult {
 	r := run.NewRunner(seed, p, opt)
-	if !hasSnapFaults(p) {
+	if !hasSnapFaults(p) && pol != nil {
 		sp := pol(core.NewRng(seed).Derive("snap"))
 		r.W.Faults.Policy = sp
 	}
 	r.Run()
-	endSnap := !hasSnapFaults(p)
+	endSnap := !hasSnapFaults(p) && pol != nil
 	for _, f := range p.Faults {
 		if f.StepID == -2 {
 			endSnap = true
